@@ -17,7 +17,9 @@ Local Open Scope nat_scope.
 
 Inductive store := SNull | SSmall | SHeap.
 
-Record q1 := mkQ { st : store; arr : list Z; cnt : nat; head : nat; tail : nat }.
+(* [inl] is the content of the in-object array _smallQueue while it is NOT the active array
+   (st <> SSmall); while st = SSmall the active array [arr] is the in-object array and [inl] is unused *)
+Record q1 := mkQ { st : store; arr : list Z; cnt : nat; head : nat; tail : nat; inl : list Z }.
 
 Inductive op :=
 | OAddTail (x : Z) | OAddHead (x : Z)
@@ -119,6 +121,59 @@ Definition step0 (l : list Z) (o : op) : list Z * out :=
       (filter (fun y => negb (Z.eqb y x)) l, ONum (length (filter (fun y => Z.eqb y x) l)))
   end.
 
+(* ---- two ideal sequences (operations that involve a second Queue, or the Queue itself as argument) *)
+
+Inductive op2 :=
+| OOn (b : bool) (o : op)                         (* a single-queue operation on A (b=false) or B (b=true) *)
+| OSwapContents (b : bool)                        (* this.SwapContents(other); this = A or B *)
+| OPlunder (b : bool)                             (* this = std::move(other)  (Plunder) *)
+| OCopyFromQ (b : bool)                           (* this.CopyFrom(other) *)
+| OAssign (b : bool)                              (* this = other *)
+| OEqual                                          (* A == B *)
+| OStartsWith (b : bool) | OEndsWith (b : bool)   (* this.StartsWith(other) / EndsWith *)
+| OAddTailMultiQ (b self : bool) (start num : nat)        (* this.AddTailMulti(src, start, num); src = this when self *)
+| OAddHeadMultiQ (b self : bool) (start num : nat)
+| OInsertItemsAtQ (b self : bool) (idx start num : nat).
+
+Definition slice (l : list Z) (start num : nat) : list Z := firstn num (skipn start l).
+
+Fixpoint zlist_eqb (a b : list Z) : bool :=
+  match a, b with
+  | [], [] => true
+  | x :: a', y :: b' => Z.eqb x y && zlist_eqb a' b'
+  | _, _ => false
+  end.
+
+Definition sel {A} (b : bool) (p : A * A) : A * A := if b then (snd p, fst p) else p.   (* (this, other) *)
+
+(* which queue is [this] *)
+Definition op2_this (o : op2) : bool :=
+  match o with
+  | OOn b _ | OSwapContents b | OPlunder b | OCopyFromQ b | OAssign b | OStartsWith b | OEndsWith b
+  | OAddTailMultiQ b _ _ _ | OAddHeadMultiQ b _ _ _ | OInsertItemsAtQ b _ _ _ _ => b
+  | OEqual => false
+  end.
+
+Definition step20 (p : list Z * list Z) (o : op2) : (list Z * list Z) * out :=
+  let b := op2_this o in
+  let '(t, r) := sel b p in
+  match o with
+  | OOn _ o1 => let '(t', res) := step0 t o1 in (sel b (t', r), res)
+  | OSwapContents _ => (sel b (r, t), ONone)
+  | OPlunder _ => (sel b (r, []), ONone)
+  | OCopyFromQ _ => (sel b (r, r), OStatus true)
+  | OAssign _ => (sel b (r, r), ONone)
+  | OEqual => (p, OStatus (zlist_eqb t r))
+  | OStartsWith _ => (p, OStatus ((length r <=? length t) && zlist_eqb (firstn (length r) t) r))
+  | OEndsWith _ => (p, OStatus ((length r <=? length t) && zlist_eqb (skipn (length t - length r) t) r))
+  | OAddTailMultiQ _ self start num =>
+      (sel b (t ++ slice (if self then t else r) start num, r), OStatus true)
+  | OAddHeadMultiQ _ self start num =>
+      (sel b (slice (if self then t else r) start num ++ t, r), OStatus true)
+  | OInsertItemsAtQ _ self idx start num =>
+      (sel b (l0_insert_at t (Nat.min idx (length t)) (slice (if self then t else r) start num), r), OStatus true)
+  end.
+
 (* ------------------------------------------------------------------ L1: the code's layout *)
 
 Section L1.
@@ -129,6 +184,10 @@ Variable sq : nat.          (* ARRAYITEMS(_smallQueue) *)
 Definition dflt : Z := 0%Z.
 Definition fresh : Z := if owning then dflt else jk.
 
+(* a just-constructed Queue: no array; the in-object array is default-constructed (owning) or
+   uninitialised (trivial) *)
+Definition empty_q : q1 := mkQ SNull [] 0 0 0 (repeat fresh sq).
+
 Definition qsize (q : q1) : nat := length (arr q).
 Definition next_index (q : q1) (i : nat) : nat := if qsize q - 1 <=? i then 0 else i + 1.
 Definition prev_index (q : q1) (i : nat) : nat := if i =? 0 then qsize q - 1 else i - 1.
@@ -136,14 +195,13 @@ Definition intern (q : q1) (i : nat) : nat :=
   let o := head q + i in if o <? qsize q then o else o - qsize q.
 Definition getu (q : q1) (i : nat) : Z := nth (intern q i) (arr q) dflt.
 Definition setu (q : q1) (i : nat) (v : Z) : q1 :=
-  mkQ (st q) (upd (arr q) (intern q i) v) (cnt q) (head q) (tail q).
+  mkQ (st q) (upd (arr q) (intern q i) v) (cnt q) (head q) (tail q) (inl q).
 Definition set_raw (q : q1) (slot : nat) (v : Z) : q1 :=
-  mkQ (st q) (upd (arr q) slot v) (cnt q) (head q) (tail q).
+  mkQ (st q) (upd (arr q) slot v) (cnt q) (head q) (tail q) (inl q).
 
 (* the abstraction function: the items a user sees *)
 Definition abs (q : q1) : list Z := map (getu q) (seq 0 (cnt q)).
 
-Definition empty_q : q1 := mkQ SNull [] 0 0 0.
 
 Definition clear_slot (q : q1) (slot : nat) : q1 := if owning then set_raw q slot dflt else q.
 
@@ -152,17 +210,19 @@ Definition remove_head (q : q1) : q1 :=
   match cnt q with
   | 0 => q
   | S c => let old := head q in
-           clear_slot (mkQ (st q) (arr q) c (next_index q (head q)) (tail q)) old
+           clear_slot (mkQ (st q) (arr q) c (next_index q (head q)) (tail q) (inl q)) old
   end.
 Definition remove_tail (q : q1) : q1 :=
   match cnt q with
   | 0 => q
   | S c => let old := tail q in
-           clear_slot (mkQ (st q) (arr q) c (head q) (prev_index q (tail q))) old
+           clear_slot (mkQ (st q) (arr q) c (head q) (prev_index q (tail q)) (inl q)) old
   end.
 
 (* FastClear *)
-Definition fast_clear (q : q1) : q1 := mkQ (st q) (arr q) 0 0 0.
+Definition fast_clear (q : q1) : q1 := mkQ (st q) (arr q) 0 0 0 (inl q).
+(* Clear(true) on a non-inline array: delete[] _queue; _queue = NULL *)
+Definition released (q : q1) : q1 := mkQ SNull [] 0 0 0 (inl q).
 
 (* Clear(release): when the buffer is kept and items are owning, the two contiguous
    pieces of the window are reset to the default item *)
@@ -170,9 +230,9 @@ Fixpoint clear_window (q : q1) (k : nat) : q1 :=
   match k with 0 => q | S k' => clear_window (set_raw q (intern q k') dflt) k' end.
 Definition clear (q : q1) (release : bool) : q1 :=
   match st q with
-  | SHeap => if release then empty_q
+  | SHeap => if release then released q
              else fast_clear (if owning then clear_window q (cnt q) else q)
-  | SNull => if release then empty_q else fast_clear q
+  | SNull => if release then released q else fast_clear q
   | SSmall => fast_clear (if owning then clear_window q (cnt q) else q)
   end.
 
@@ -187,7 +247,7 @@ Definition remove_tail_multi (q : q1) (n : nat) : q1 * nat :=
   | _ => if n =? cnt q then (clear q false, n)
          else if owning then (iter n remove_tail q, n)
          else (mkQ (st q) (arr q) (cnt q - n) (head q)
-                   ((if tail q <? n then tail q + qsize q else tail q) - n), n)
+                   ((if tail q <? n then tail q + qsize q else tail q) - n) (inl q), n)
   end.
 Definition remove_head_multi (q : q1) (n : nat) : q1 * nat :=
   let n := Nat.min n (cnt q) in
@@ -195,7 +255,7 @@ Definition remove_head_multi (q : q1) (n : nat) : q1 * nat :=
   | 0 => (q, 0)
   | _ => if n =? cnt q then (clear q false, n)
          else if owning then (iter n remove_head q, n)
-         else (mkQ (st q) (arr q) (cnt q - n) ((head q + n) mod qsize q) (tail q), n)
+         else (mkQ (st q) (arr q) (cnt q - n) ((head q + n) mod qsize q) (tail q) (inl q), n)
   end.
 
 (* EnsureSizeAux(size, setNumItems, extraPreallocs, _, allowShrink).
@@ -208,18 +268,21 @@ Definition es_need_realloc (q : q1) (size extra : nat) (shrink : bool) : bool :=
   | SNull => true
   | _ => if shrink then negb (qsize q =? size + extra) else qsize q <? size
   end.
-(* the reallocation: items are copied to the front of the new array *)
+(* the reallocation: items are copied to the front of the new array, which is the in-object
+   array when that is not the current one and is large enough, else a fresh heap array.  Leaving
+   the in-object array resets it to default items for owning item types. *)
 Definition es_realloc (q : q1) (size extra : nat) : q1 :=
   let temp := Nat.max (size + extra) (cnt q) in
   let newlen := Nat.max sq temp in
   let to_small := match st q with SSmall => false | _ => newlen <=? sq end in
   let items := abs q in
-  let newarr := items ++ repeat fresh (newlen - length items) in
   let c := cnt q in
-  mkQ (if to_small then SSmall else SHeap) newarr c 0 (c - 1).
+  if to_small then mkQ SSmall (items ++ skipn c (inl q)) c 0 (c - 1) []
+  else mkQ SHeap (items ++ repeat fresh (newlen - length items)) c 0 (c - 1)
+           (match st q with SSmall => if owning then repeat dflt sq else arr q | _ => inl q end).
 (* setNumItems with size > _itemCount: the new items must be default items *)
 Definition es_grow (q : q1) (size : nat) : q1 :=
-  let grown := mkQ (st q) (arr q) size (head q) (prev_index q (intern q size)) in
+  let grown := mkQ (st q) (arr q) size (head q) (prev_index q (intern q size)) (inl q) in
   (* fill the newly exposed slots for trivial types (owning slots are default already) *)
   if owning then grown
   else fold_left (fun g i => setu g i dflt) (seq (cnt q) (size - cnt q)) grown.
@@ -236,12 +299,12 @@ Definition add_tail (q : q1) (x : Z) : q1 :=
   let q := ensure_size q (cnt q + 1) false (cnt q + 1) false in
   let t := if cnt q =? 0 then 0 else next_index q (tail q) in
   let h := if cnt q =? 0 then 0 else head q in
-  mkQ (st q) (upd (arr q) t x) (cnt q + 1) h t.
+  mkQ (st q) (upd (arr q) t x) (cnt q + 1) h t (inl q).
 Definition add_head (q : q1) (x : Z) : q1 :=
   let q := ensure_size q (cnt q + 1) false (cnt q + 1) false in
   let h := if cnt q =? 0 then 0 else prev_index q (head q) in
   let t := if cnt q =? 0 then 0 else tail q in
-  mkQ (st q) (upd (arr q) h x) (cnt q + 1) h t.
+  mkQ (st q) (upd (arr q) h x) (cnt q + 1) h t (inl q).
 
 (* RemoveItemAt(index): shift toward the nearer end *)
 Fixpoint shift_from_head (q : q1) (slot : nat) (fuel : nat) : q1 :=
@@ -263,11 +326,11 @@ Definition remove_at (q : q1) (i : nat) : q1 :=
   else if i <? cnt q / 2 then
     let q2 := shift_from_head q (intern q i) (qsize q) in
     let old := head q2 in
-    clear_slot (mkQ (st q2) (arr q2) (cnt q2 - 1) (next_index q2 (head q2)) (tail q2)) old
+    clear_slot (mkQ (st q2) (arr q2) (cnt q2 - 1) (next_index q2 (head q2)) (tail q2) (inl q2)) old
   else
     let q2 := shift_from_tail q (intern q i) (qsize q) in
     let old := tail q2 in
-    clear_slot (mkQ (st q2) (arr q2) (cnt q2 - 1) (head q2) (prev_index q2 (tail q2))) old.
+    clear_slot (mkQ (st q2) (arr q2) (cnt q2 - 1) (head q2) (prev_index q2 (tail q2)) (inl q2)) old.
 
 (* InsertItemAt(index, item) *)
 Definition insert_at (q : q1) (i : nat) (x : Z) : q1 :=
@@ -292,23 +355,23 @@ Definition add_tail_multi (q : q1) (xs : list Z) : q1 :=
 Definition add_head_multi (q : q1) (xs : list Z) : q1 :=
   let q := ensure_size q (cnt q + length xs) false 0 false in
   fold_left add_head (rev xs) q.
+(* the general path of InsertItemsAt: grow by n default items, shift the tail part up by n
+   (backwards, the ranges may overlap), write the new items *)
+Definition insert_items_general (q : q1) (i : nat) (xs : list Z) : q1 :=
+  let old := cnt q in
+  let n := length xs in
+  let q2 := ensure_size q (old + n) true 0 false in
+  let q3 := fold_left (fun g k => setu g (k + n) (getu g k)) (rev (seq i (old - i))) q2 in
+  write_from q3 i xs.
+(* InsertItemsAt(index, const ItemType *, numNewItems) *)
 Definition insert_items_at (q : q1) (i : nat) (xs : list Z) : q1 :=
   let i := Nat.min i (cnt q) in
   match xs with
   | [] => q
   | [x] => if i =? 0 then add_head q x
            else if i =? cnt q then add_tail q x
-           else
-             let old := cnt q in
-             let q2 := ensure_size q (old + 1) true 0 false in
-             let q3 := fold_left (fun g k => setu g (k + 1) (getu g k)) (rev (seq i (old - i))) q2 in
-             write_from q3 i xs
-  | _ =>
-      let old := cnt q in
-      let n := length xs in
-      let q2 := ensure_size q (old + n) true 0 false in
-      let q3 := fold_left (fun g k => setu g (k + n) (getu g k)) (rev (seq i (old - i))) q2 in
-      write_from q3 i xs
+           else insert_items_general q i xs
+  | _ => insert_items_general q i xs
   end.
 
 (* CopyFrom(rhs) from another queue's contents: EnsureSize(n, true), then overwrite *)
@@ -340,15 +403,91 @@ Definition normalize (q : q1) : q1 :=
        let g1 := set_raw g (start + i) v in
        if owning then set_raw g1 (intern q i) dflt else g1 in
     let g := fold_left step (seq 0 (cnt q)) q in
-    mkQ (st g) (arr g) (cnt q) start (start + cnt q - 1)
+    mkQ (st g) (arr g) (cnt q) start (start + cnt q - 1) (inl g)
   else
-    mkQ (st q) (skipn (head q) (arr q) ++ firstn (head q) (arr q)) (cnt q) 0 (cnt q - 1).
+    mkQ (st q) (skipn (head q) (arr q) ++ firstn (head q) (arr q)) (cnt q) 0 (cnt q - 1) (inl q).
 
 Definition remove_all_instances (q : q1) (x : Z) : q1 * nat :=
   let items := abs q in
   let keep := filter (fun y => negb (Z.eqb y x)) items in
   let q2 := write_from q 0 keep in
   (iter (length items - length keep) remove_tail q2, length items - length keep).
+
+(* ---- operations involving a second Queue *)
+
+(* SwapContentsAux: [sm] lives in its in-object array, [lg] does not.  lg's in-object array receives
+   sm's items and becomes lg's array; sm adopts lg's array.  [With the repair of finding F14 the
+   vacated in-object slots of sm are reset for owning item types.] *)
+Definition swap_contents_aux (sm lg : q1) : q1 * q1 :=
+  let ni := cnt sm in
+  let items := abs sm in
+  let vacated := if owning then arr (clear_window sm ni) else arr sm in
+  let has := 0 <? qsize lg in
+  let sm' := mkQ (st lg) (arr lg) (cnt lg) (if has then head lg else 0) (if has then tail lg else 0) vacated in
+  let lg' := if 0 <? ni then mkQ SSmall (items ++ skipn ni (inl lg)) ni 0 (ni - 1) []
+             else mkQ SNull [] 0 (head lg) (tail lg) (inl lg) in
+  (sm', lg').
+
+Definition swap_contents (a b : q1) : q1 * q1 :=
+  match st a, st b with
+  | SSmall, SSmall =>
+      let common := Nat.min (cnt a) (cnt b) in
+      let '(a1, b1) :=
+        if cnt b <? cnt a
+        then (ensure_size a common true 0 false, add_tail_multi b (skipn common (abs a)))
+        else (add_tail_multi a (skipn common (abs b)), ensure_size b common true 0 false) in
+      (write_from a1 0 (firstn common (abs b1)), write_from b1 0 (firstn common (abs a1)))
+  | SSmall, _ => swap_contents_aux a b
+  | _, SSmall => let '(b', a') := swap_contents_aux b a in (a', b')
+  | _, _ => (mkQ (st b) (arr b) (cnt b) (head b) (tail b) (inl a),
+             mkQ (st a) (arr a) (cnt a) (head a) (tail a) (inl b))
+  end.
+
+(* Plunder(rhs), i.e. move construction / move assignment *)
+Definition plunder (t r : q1) : q1 * q1 :=
+  let '(t', r') :=
+    match st r with
+    | SSmall => let t1 := ensure_size t (cnt r) true 0 false in
+                (write_from t1 0 (abs r), write_from r 0 (abs t1))
+    | _ => swap_contents t r
+    end in
+  (t', clear r' false).
+
+(* operator=(const Queue &) *)
+Definition assign (t r : q1) : q1 := if cnt r =? 0 then clear t true else copy_from t (abs r).
+
+(* operator== : sizes, then items from the last to the first *)
+Fixpoint eq_loop (a b : q1) (k : nat) : bool :=
+  match k with 0 => true | S k' => if Z.eqb (getu a k') (getu b k') then eq_loop a b k' else false end.
+Definition queues_eq (a b : q1) : bool := if cnt a =? cnt b then eq_loop a b (cnt a) else false.
+
+(* StartsWith(prefixQueue) / EndsWith(suffixQueue) *)
+Definition starts_with (t r : q1) : bool :=
+  if cnt t <? cnt r then false else forallb (fun i => Z.eqb (getu r i) (getu t i)) (seq 0 (cnt r)).
+Definition ends_with (t r : q1) : bool :=
+  if cnt t <? cnt r then false
+  else let off := cnt t - cnt r in forallb (fun i => Z.eqb (getu r i) (getu t (i + off))) (seq 0 (cnt r)).
+
+(* AddTailMulti / AddHeadMulti / InsertItemsAt (const Queue &, startIndex, numItems); [src] is the
+   source's items (the destination's own items when it is passed as its own argument: the code then
+   works from a temporary copy -- always, with the repair of finding F15 for AddHeadMulti). *)
+Definition add_tail_multi_q (t : q1) (src : list Z) (start num : nat) : q1 := add_tail_multi t (slice src start num).
+Definition add_head_multi_q (t : q1) (src : list Z) (start num : nat) : q1 := add_head_multi t (slice src start num).
+Definition insert_items_at_q (t : q1) (src : list Z) (idx start num : nat) : q1 :=
+  let xs := slice src start num in
+  let i := Nat.min idx (cnt t) in
+  match xs with
+  | [] => t
+  | _ => if i =? 0 then add_head_multi t xs
+         else if i =? cnt t then add_tail_multi t xs
+         else insert_items_general t i xs
+  end.
+
+(* the un-repaired a.AddHeadMulti(a, start, num) when enough slots are unused (finding F15): the
+   loop reads the queue it is prepending to, so every AddHead shifts the indices still to be read *)
+Definition add_head_multi_self_old (t : q1) (start num : nat) : q1 :=
+  let n := Nat.min num (if start <? cnt t then cnt t - start else 0) in
+  fold_left (fun g i => add_head g (getu g i)) (rev (seq start n)) t.
 
 Definition step1 (q : q1) (o : op) : q1 * out :=
   match o with
@@ -385,7 +524,31 @@ Definition step1 (q : q1) (o : op) : q1 * out :=
 Definition run1 (ops : list op) : q1 * list out :=
   fold_left (fun '(q, outs) o => let '(q', r) := step1 q o in (q', outs ++ [r])) ops (empty_q, []).
 
+Definition step2 (p : q1 * q1) (o : op2) : (q1 * q1) * out :=
+  let b := op2_this o in
+  let '(t, r) := sel b p in
+  match o with
+  | OOn _ o1 => let '(t', res) := step1 t o1 in (sel b (t', r), res)
+  | OSwapContents _ => (sel b (swap_contents t r), ONone)
+  | OPlunder _ => (sel b (plunder t r), ONone)
+  | OCopyFromQ _ => (sel b (copy_from t (abs r), r), OStatus true)
+  | OAssign _ => (sel b (assign t r, r), ONone)
+  | OEqual => (p, OStatus (queues_eq t r))
+  | OStartsWith _ => (p, OStatus (starts_with t r))
+  | OEndsWith _ => (p, OStatus (ends_with t r))
+  | OAddTailMultiQ _ self start num => (sel b (add_tail_multi_q t (if self then abs t else abs r) start num, r), OStatus true)
+  | OAddHeadMultiQ _ self start num => (sel b (add_head_multi_q t (if self then abs t else abs r) start num, r), OStatus true)
+  | OInsertItemsAtQ _ self idx start num =>
+      (sel b (insert_items_at_q t (if self then abs t else abs r) idx start num, r), OStatus true)
+  end.
+
+Definition run2 (ops : list op2) : (q1 * q1) * list out :=
+  fold_left (fun '(p, outs) o => let '(p', r) := step2 p o in (p', outs ++ [r])) ops ((empty_q, empty_q), []).
+
 End L1.
 
 Definition run0 (ops : list op) : list Z * list out :=
   fold_left (fun '(l, outs) o => let '(l', r) := step0 l o in (l', outs ++ [r])) ops ([], []).
+
+Definition run20 (ops : list op2) : (list Z * list Z) * list out :=
+  fold_left (fun '(p, outs) o => let '(p', r) := step20 p o in (p', outs ++ [r])) ops (([], []), []).
